@@ -283,6 +283,29 @@ def check(tier, seed):
         run.cov["discharged"] += 1
     else:
         run.violation("BlockingExecutor:serial-is-the-sequential-loop", "BlockingExecutor.execute_fields_serially is no longer its (sequential) execute_fields", {}, False)
+    # frame: executing a request writes nothing into the schema, the document or the supplied variables (no memo on a type, a field definition or a node, no mark):
+    # "the result does not depend on requests previously served by the same schema object" for every request (vf/aliascheck.py, protected roots; one obligation per function)
+    import importlib as _il, inspect as _inspect
+    from vf import aliascheck
+    _funcs = []
+    for _m in ("py_gql.execution.executor", "py_gql.execution.blocking_executor", "py_gql.execution.wrappers", "py_gql.execution.execute", "py_gql.execution.subscribe",
+               "py_gql.execution.get_operation", "py_gql.utilities.collect_fields", "py_gql.utilities.coerce_value", "py_gql.utilities.value_from_ast", "py_gql._graphql"):
+        try:
+            _M = _il.import_module(_m)
+        except ImportError:
+            continue
+        _short = _m.split("py_gql.")[-1]
+        for _n, _o in vars(_M).items():
+            if _inspect.isfunction(_o) and _o.__module__ == _M.__name__:
+                _funcs.append(("%s.%s" % (_short, _n), _o))
+            if _inspect.isclass(_o) and _o.__module__ == _M.__name__:
+                _funcs += [("%s.%s.%s" % (_short, _n, _k), _f) for _k, _f in vars(_o).items() if _inspect.isfunction(_f)]
+    if len(_funcs) < 40:
+        raise MachineryDefect("only %d execution functions found" % len(_funcs))
+    _PROT = ("schema", "document", "doc", "node", "nodes", "field_definition", "field_def", "parent_type", "operation", "fragment", "fragments", "selection_set", "selections", "type_",
+             "variables", "coerced_variables", "field_type", "inner_type", "abstract_type", "object_type", "ast")
+    aliascheck.account(run, aliascheck.obligations(_funcs, "execute", "executing a request leaves a trace on the schema, the document or the variables, so a later request depends on the history",
+                                                   protected=lambda a: a in _PROT))
     return run.finish("other", "trace contracts over every path of the executor's skeleton (complete_value dispatch, _handle_non_nullable_value, execute_fields; Engine P) + "
                                "bounded stand-in: end-to-end functional contract (ordered data + error multiset == reference execution algorithm) over "
                                "enumerated operations x resolver worlds, and independence from earlier requests on the same schema object",
